@@ -307,6 +307,7 @@ func exec(c vh.Case, o *vh.Out) {
 		if !bytes.Equal(content, input) {
 			o.Fail("content-mismatch", "leaves concatenate to %d bytes, input has %d", len(content), len(input))
 		}
+		readBackPartial(o, s, root, ds, input)
 		if recSize != uint64(len(input)) {
 			o.Fail("size-mismatch", "root records %d, input has %d", recSize, len(input))
 		}
@@ -368,6 +369,88 @@ func exec(c vh.Case, o *vh.Out) {
 			o.Nontrivial()
 		}
 		o.Emit("%s", wk.sb.String())
+	}
+}
+
+// readBackPartial reads the imported file back the way a consumer streams it: a Read (or Seek) that ends
+// INSIDE a leaf, then WriteTo for the rest, then the position must be the size and a relative seek back
+// must deliver the tail (byte-array reader semantics, the spec of C09).
+func readBackPartial(o *vh.Out, s importSpec, root ipld.Node, ds ipld.DAGService, input []byte) {
+	if len(input) < 2 {
+		return
+	}
+	// chunk boundaries of the import
+	bound := map[int]bool{0: true}
+	if s.spec == "s" {
+		at := 0
+		for _, t := range s.toks {
+			at += len(vh.UnHex(t))
+			bound[at] = true
+		}
+	} else {
+		k := vh.Atoi(s.spec[1:])
+		for at := 0; at <= len(input); at += k {
+			bound[at] = true
+		}
+	}
+	k := -1
+	for c := len(input) / 2; c < len(input); c++ { // first offset from the middle on that is inside a leaf
+		if !bound[c] {
+			k = c
+			break
+		}
+	}
+	if k < 0 {
+		for c := 1; c < len(input)/2; c++ {
+			if !bound[c] {
+				k = c
+				break
+			}
+		}
+	}
+	if k < 0 {
+		o.Kind("readback-aligned-only")
+		k = len(input) / 2
+	} else {
+		o.Kind("readback-inside-leaf")
+	}
+	for _, how := range []string{"read", "seek"} {
+		dr, err := uio.NewDagReader(context.Background(), root, ds)
+		if err != nil {
+			o.Fail("reader-error", "NewDagReader: %v", err)
+			return
+		}
+		if how == "read" {
+			buf := make([]byte, k)
+			n, err := io.ReadFull(dr, buf)
+			if n != k || err != nil || !bytes.Equal(buf, input[:k]) {
+				o.Fail("readback-bytes", "Read(%d) = (%d,%v), wrong prefix", k, n, err)
+				return
+			}
+		} else if p, err := dr.Seek(int64(k), io.SeekStart); p != int64(k) || err != nil {
+			o.Fail("readback-position", "Seek(%d,Start) = (%d,%v)", k, p, err)
+			return
+		}
+		var rest bytes.Buffer
+		n, err := dr.WriteTo(&rest)
+		if err != nil || n != int64(len(input)-k) || !bytes.Equal(rest.Bytes(), input[k:]) {
+			o.Fail("readback-bytes", "%s to %d then WriteTo = (%d,%v), expected the last %d bytes", how, k, n, err, len(input)-k)
+			return
+		}
+		if p, err := dr.Seek(0, io.SeekCurrent); p != int64(len(input)) || err != nil {
+			o.Fail("readback-position", "%s to %d, WriteTo, then Seek(0,Current) = (%d,%v), size is %d", how, k, p, err, len(input))
+			return
+		}
+		j := min(3, len(input))
+		if p, err := dr.Seek(int64(-j), io.SeekCurrent); p != int64(len(input)-j) || err != nil {
+			o.Fail("readback-position", "Seek(-%d,Current) after WriteTo = (%d,%v), expected %d", j, p, err, len(input)-j)
+			return
+		}
+		tail, err := io.ReadAll(dr)
+		if err != nil || !bytes.Equal(tail, input[len(input)-j:]) {
+			o.Fail("readback-bytes", "after Seek(-%d,Current): read %x (err=%v), expected %x", j, tail, err, input[len(input)-j:])
+			return
+		}
 	}
 }
 
